@@ -15,7 +15,7 @@ use serde_json::json;
 fn c02_cfg(tier: Tier) -> ProgCfg {
     ProgCfg {
         mix: OpMix { write: 1, ..OpMix::NONE },
-        wmix: WriteMix { bad_decls: false, meta: true, by_hash: true },
+        wmix: WriteMix { bad_decls: false, meta: true, by_hash: true, rich_matching: false, interfere: false },
         sizes: SizeMix::Boundary,
         keys: (1, 3),
         blobs: (1, 2),
@@ -201,7 +201,7 @@ pub fn c02() -> ProgEngine {
 fn c08_cfg(tier: Tier) -> ProgCfg {
     ProgCfg {
         mix: OpMix { write: 10, remove: 2, ..OpMix::NONE },
-        wmix: WriteMix { bad_decls: true, meta: true, by_hash: true },
+        wmix: WriteMix { bad_decls: true, meta: true, by_hash: true, rich_matching: false, interfere: false },
         sizes: SizeMix::Boundary,
         keys: (1, 3),
         blobs: (1, 3),
@@ -339,7 +339,7 @@ pub fn c08() -> ProgEngine {
 fn c11_cfg(tier: Tier) -> ProgCfg {
     ProgCfg {
         mix: OpMix { write: 10, idx_insert: 3, remove: 1, ..OpMix::NONE },
-        wmix: WriteMix { bad_decls: false, meta: true, by_hash: false },
+        wmix: WriteMix { bad_decls: false, meta: true, by_hash: false, rich_matching: true, interfere: false },
         sizes: SizeMix::Small,
         keys: (1, 4),
         blobs: (1, 3),
@@ -387,6 +387,39 @@ fn c11_grid(_tier: Tier) -> Vec<Program> {
                     Step { op: Op::Write(s), fl }
                 };
                 out.push(Program { keys, blobs, steps: vec![step, Step { op: Op::Write(WriteSpec::simple(Some(1), 0)), fl: Fl::Sync }] });
+            }
+        }
+    }
+    // default timestamp = time of the COMMIT: streamed writers that wait between open and commit
+    for fl in [Fl::Sync, Fl::Async] {
+        for (ei, entry) in [WEntry::Opts, WEntry::Create, WEntry::CreateAlgo].into_iter().enumerate() {
+            for keyed_opts_declared in [false, true] {
+                let mut s = WriteSpec::simple(Some(0), 0);
+                s.entry = entry;
+                s.algo = ALGOS[ei];
+                s.chunks = vec![2, 3];
+                s.pause_ms = 5;
+                if entry == WEntry::Opts && keyed_opts_declared {
+                    s.declare = Declare::Exact;
+                    s.metadata = Some(json!({"waited": true}));
+                }
+                crate::gen::normalise_write(&mut s);
+                out.push(Program { keys: vec![format!("late-commit-{ei}"), "x".into()], blobs: vec![Blob::new(40, 3)], steps: vec![Step { op: Op::Write(s), fl }] });
+            }
+        }
+    }
+    // declared integrities with several hashes are metadata too: returned as supplied
+    for fl in [Fl::Sync, Fl::Async] {
+        for integ in [IntegDecl::Correct, IntegDecl::MultiWithCorrect, IntegDecl::MultiTwoAlgos] {
+            for (ai, &algo) in ALGOS.iter().enumerate() {
+                for len in [10usize, 11] {
+                    let mut s = WriteSpec::simple(Some(0), 0);
+                    s.entry = WEntry::Opts;
+                    s.algo = algo;
+                    s.integ = integ;
+                    s.chunks = vec![4];
+                    out.push(Program { keys: vec![format!("multi-{ai}"), "y".into()], blobs: vec![Blob::new(len, 9 + ai as u64)], steps: vec![Step { op: Op::Write(s), fl }] });
+                }
             }
         }
     }
@@ -469,7 +502,7 @@ pub fn c11() -> ProgEngine {
 fn c16_cfg(tier: Tier) -> ProgCfg {
     ProgCfg {
         mix: OpMix { write: 16, read: 2, read_hash: 2, damage_content: 2, remove: 1, ..OpMix::NONE },
-        wmix: WriteMix { bad_decls: false, meta: false, by_hash: true },
+        wmix: WriteMix { bad_decls: false, meta: false, by_hash: true, rich_matching: false, interfere: false },
         sizes: SizeMix::Small,
         keys: (2, 5),
         blobs: (1, 3),
